@@ -18,6 +18,9 @@ Preconditions honoured by construction (documented by the transformations / show
          ('seq_cross_column' lets the dummy run into the next column: legal Fortran; the rewritten actual a(i:3,j) is then
          shorter than the dummy, which gfortran neither diagnoses nor copies, so the OUTPUT is unchanged: an ordinary feature)
   shape  assumed-shape dummies receive whole arrays or full-column sections; one calling context per callee
+         ('shape_partial': additionally a rank-reducing section with a PARTIAL explicit range, lq(2:n+1, 1) of the local
+         lq(n+1, 2) with lower bounds 1; the callee uses the extent of that dummy: SIZE, SUM, element UBOUND. The analysis must
+         leave such a dummy assumed-shape - or give it the extent of the section, never that of the whole dimension)
   dup    duplicated actuals only for INTENT(IN) dummies; every call of a callee duplicates the same positions
 Triggers of listed known findings are features as well: build() emits the triggering construct ONLY when the trigger
 feature is on (the check switches a trigger on only while its finding is NOT listed as known):
@@ -46,7 +49,8 @@ FEATURES = {
     'tb+dt': ['nested', 'arrcomp', 'alloc', 'aos', 'leaf', 'tb_sub', 'tb_func', 'tb_nested', 'tb_in_layer', 'othermod'],
     'seq': ['seq_2d_actual', 'seq_lb', 'seq_dummy_lb', 'seq_rank2', 'seq_comp', 'seq_nested_call', 'seq_var_index', 'seq_cross_column',
             'othermod'],
-    'shape': ['shape_2d', 'shape_section', 'shape_chain', 'shape_literal_dims', 'shape_inquiry', 'shape_two_callees', 'othermod'],
+    'shape': ['shape_2d', 'shape_section', 'shape_chain', 'shape_literal_dims', 'shape_inquiry', 'shape_two_callees', 'othermod',
+              'shape_partial'],
     'dup': ['dup_array', 'dup_scalar', 'dup_section', 'dup_literal', 'dup_triple', 'dup_kw', 'dup_chain', 'dup_two_calls', 'othermod'],
 }
 # features that trigger listed known findings (generated only when the check switches them on)
@@ -565,8 +569,9 @@ def build_shape(case):
     ent = entry_decls(lb3)
     callees = []
 
-    def mk(name, ranks, salt, inner_call=None):
-        """callee with assumed-shape dummies x0.. of the given ranks (extents >= 3 in every dimension)"""
+    def mk(name, ranks, salt, inner_call=None, extent_used=()):
+        """callee with assumed-shape dummies x0.. of the given ranks (extents >= 3 in every dimension); extent_used: indices of
+        rank-1 dummies whose SIZE and SUM are added to x0(1) (the whole extent of the dummy reaches the output)"""
         dd, args = [], []
         env = B.Env()
         for k, r in enumerate(ranks):
@@ -598,6 +603,10 @@ def build_shape(case):
             body.append(['assign', ['d', [[x0, [lit(1)] * r0]]],
                          ['b', '+', ['d', [[x0, [lit(1)] * r0]]],
                           ['f', 'real', [['b', '+', ['f', 'size', [var(x0)], {}], ['f', 'lbound', [var(x0), lit(1)], {}]], lit(8)], {}]]])
+        for k in extent_used:
+            e1 = ['d', [[x0, [lit(1)] * r0]]]
+            body.append(['assign', e1, ['b', '+', e1, ['b', '+', ['f', 'sum', [var(f'x{k}')], {}],
+                                                       ['f', 'real', [['f', 'size', [var(f'x{k}')], {}], lit(8)], {}]]]])
         if inner_call:
             body.append(inner_call)
         return routine(name, args, dd, body)
@@ -618,12 +627,25 @@ def build_shape(case):
     if feat.get('shape_section'):
         ranks.append(1)
         actuals.append(['d', [['zr4', [['rng', None, None, None], lit(g.i(1, 3))]]]])
+    extent_used = []
+    if feat.get('shape_partial'):
+        # rank-reducing section with a partial explicit range: extent n of a column of n+1 elements; what lies behind the
+        # section (the second column) is not zero and is not part of the output sum of the first column
+        np1 = ['b', '+', var('n'), lit(1)]
+        kd.append(decl('lq', 'real', dims=[[1, np1], [1, 2]]))
+        kbody.append(['assign', var('lq'), ['b', '+', var('xr0'), ['r', '0.0625']]])
+        extent_used.append(len(ranks))
+        ranks.append(1)
+        actuals.append(['d', [['lq', [['rng', lit(2), np1, None], lit(1)]]]])
     inner = None
     if feat.get('shape_chain'):
         callees.append(mk('leaf', [ranks[0]], 211))
         inner = ['call', 'leaf', [var('x0')], {}]
-    callees.append(mk('layer', ranks, 311, inner))
+    callees.append(mk('layer', ranks, 311, inner, extent_used=extent_used))
     kbody.append(['call', 'layer', actuals, {}])
+    if feat.get('shape_partial'):
+        col1 = ['d', [['lq', [['rng', None, None, None], lit(1)]]]]
+        kbody.append(['assign', var('yr0'), ['b', '+', var('yr0'), ['f', 'sum', [col1], {}]]])
     if feat.get('shape_two_callees'):
         callees.append(mk('other', [1], 411))
         kbody.append(['call', 'other', [var('zr2')], {}])
